@@ -101,6 +101,9 @@ func (this *RaftTransport) Send(ctx context.Context, group *RaftGroup, messages 
 
 		sendCtx, _ := context.WithTimeout(ctx, 500*time.Millisecond)
 		if _, err := client.Receive(sendCtx, payload); err != nil {
+			// The cached client may sit on a connection that was closed when the node left the
+			// cluster (or moved): dial again next time
+			this.dropNodeRaftTransportClient(m.To)
 			group.reportUnreachable(m.To)
 			if m.Type == raftpb.MsgSnap {
 				group.reportSnapshot(m.To, etcdRaft.SnapshotFailure)
@@ -155,6 +158,16 @@ func (this *RaftTransport) getGroup(id uuid.UUID) (*RaftGroup, error) {
 		return nil, GroupNotFoundError
 	}
 	return group, nil
+}
+
+func (this *RaftTransport) dropNodeRaftTransportClient(nodeId uint64) {
+	if this.verifInjected(nodeId) {
+		return
+	}
+	this.nodeClientsMu.Lock()
+	defer this.nodeClientsMu.Unlock()
+
+	delete(this.nodeClients, nodeId)
 }
 
 func (this *RaftTransport) getNodeRaftTransportClient(nodeId uint64) (pb.RaftTransportClient, error) {
